@@ -6,6 +6,7 @@ import (
 	"math"
 	"net/url"
 	"regexp"
+	"slices"
 	"sort"
 	"strings"
 
@@ -167,8 +168,15 @@ func (g *generator) walkRef(schema *openapi3.SchemaRef) (ast.Type, error) {
 	}
 
 	pkg, referredKindName := g.getRefName(schema.Ref)
+	ref := ast.NewRef(pkg, referredKindName)
 
-	return ast.NewRef(pkg, referredKindName), nil
+	// an enum is declared with the type of its members, whatever its nullability: what
+	// refers to an enum that accepts null carries that nullability, as it does for an enum written in place
+	if schema.Value != nil && len(schema.Value.Enum) != 0 && (schema.Value.Nullable || slices.Contains(schema.Value.Enum, nil)) {
+		ref.Nullable = true
+	}
+
+	return ref, nil
 }
 
 // refersToComponentSchema tells whether a reference designates a direct entry
